@@ -176,6 +176,72 @@ def snapshot_diff(a, b, ignore_mtime=False):
     return added, removed, sorted(changed)
 
 
+# --- time zones with a history (TZif files written by the simulator; no tz database needed) -------------------
+
+
+def _nth_weekday(year, month, week, dow):
+    """day of month of the `week`-th (1..4, 5 = last) weekday `dow` (0 = Sunday) of year/month"""
+    import calendar
+
+    days = [d for d in range(1, calendar.monthrange(year, month)[1] + 1)
+            if (calendar.weekday(year, month, d) + 1) % 7 == dow]
+    return days[-1] if week >= 5 else days[week - 1]
+
+
+def tzif_bytes(zone):
+    """TZif (version 1) data of a zone {"std": s, "dst": s, "start": [month, week, hour], "end": [month, week, hour],
+    "years": [first, last], optional "shift": [year, new_std, new_dst]}: DST from `start` to `end` (local wall clock
+    hours, Sundays) in every year of the range, nothing before / after it; with "shift" the standard offset itself
+    changes at the start of that year -- i.e. a zone whose past differs from its present, which a POSIX rule string
+    cannot express"""
+    import calendar
+    import struct
+
+    y0, y1 = zone["years"]
+    types = []  # (utoff, isdst)
+
+    def tindex(off, isdst):
+        if (off, isdst) not in types:
+            types.append((off, isdst))
+        return types.index((off, isdst))
+
+    std, dst = zone["std"], zone["dst"]
+    tindex(std, 0)
+    trans = []
+    for year in range(y0, y1 + 1):
+        if zone.get("shift") and year == zone["shift"][0]:
+            std, dst = zone["shift"][1], zone["shift"][2]
+            trans.append((calendar.timegm((year, 1, 1, 0, 0, 0)) - std, tindex(std, 0)))
+        (sm, sw, sh), (em, ew, eh) = zone["start"], zone["end"]
+        t_on = calendar.timegm((year, sm, _nth_weekday(year, sm, sw, 0), sh, 0, 0)) - std
+        t_off = calendar.timegm((year, em, _nth_weekday(year, em, ew, 0), eh, 0, 0)) - dst
+        trans += [(t_on, tindex(dst, 1)), (t_off, tindex(std, 0))]
+    trans.sort()
+    abbr = b"STD\0DST\0"
+    out = b"TZif" + b"\0" + b"\0" * 15 + struct.pack(">6l", 0, 0, 0, len(trans), len(types), len(abbr))
+    out += b"".join(struct.pack(">l", t) for t, _ in trans)
+    out += bytes(i for _, i in trans)
+    out += b"".join(struct.pack(">lBB", off, isdst, 4 if isdst else 0) for off, isdst in types)
+    out += abbr
+    return out
+
+
+def resolve_tz(spec):
+    """the value of TZ for a world spec: a POSIX rule string, or ':<file>' for a generated zone (spec["tzif"])"""
+    if spec.get("tz") != "TZIF":
+        return spec.get("tz", "UTC0")
+    data = tzif_bytes(spec["tzif"])
+    d = "/dev/shm/mhlsim_zones"
+    R_makedirs(d, exist_ok=True)
+    p = os.path.join(d, hashlib.sha1(data).hexdigest()[:16] + ".tzif")
+    if not os.path.exists(p):
+        tmp = p + ".%d" % os.getpid()
+        with R_open(tmp, "wb") as f:
+            f.write(data)
+        R_replace(tmp, p)
+    return ":" + p
+
+
 # --- the world ---------------------------------------------------------------------------------------------
 
 
@@ -214,7 +280,8 @@ class World:
             R_makedirs(os.path.join(self.base, "_real"))
             os.symlink("_real", os.path.join(self.base, self.spec["mount"][0]))
         R_makedirs(self.root)
-        os.environ["TZ"] = self.spec["tz"]
+        self.tz_env = resolve_tz(self.spec)
+        os.environ["TZ"] = self.tz_env
         _time_mod.tzset()
         self.build_tree(spec.get("tree", {}))
 
@@ -231,8 +298,8 @@ class World:
             if ent["t"] == "d":
                 R_makedirs(p, exist_ok=True)
                 dirs.append((rel, ent))
-            elif ent["t"] == "l":
-                continue  # symbolic links are created after their targets
+            elif ent["t"] in ("l", "h"):
+                continue  # symbolic and hard links are created after their targets
             else:
                 R_makedirs(os.path.dirname(p), exist_ok=True)
                 with R_open(p, "wb") as f:
@@ -244,6 +311,11 @@ class World:
                 p = self.abspath(rel)
                 R_makedirs(os.path.dirname(p), exist_ok=True)
                 os.symlink(ent["to"], p)  # relative to the link's own directory
+            elif ent["t"] == "h":
+                p = self.abspath(rel)
+                R_makedirs(os.path.dirname(p), exist_ok=True)
+                if os.path.isfile(self.abspath(ent["to"])):  # (a shrunk tree may have lost the target)
+                    os.link(self.abspath(ent["to"]), p)  # a second name for the same inode; "to" is relative to the root
         # directories: stamp every directory below the mount (deepest first) so no kernel time remains
         self.restamp_all_dirs(default_m, {self.abspath(r): e.get("m", default_m) for r, e in dirs})
 
@@ -342,6 +414,9 @@ class World:
             LIVE_SESSIONS.remove(self)
 
     def run_child(self, job, cwd=None, kill=None, hooks=None, timeout=60):
+        if os.environ.get("TZ") != self.tz_env:  # (another world of the same scenario may live in another zone)
+            os.environ["TZ"] = self.tz_env
+            _time_mod.tzset()
         if self.spec.get("process_model") == "session" and not hooks and job[0] in ("cmd", "pyfunc"):
             return self._run_in_session(job, cwd, kill, timeout)
         return self._run_forked(job, cwd, kill, hooks, timeout)
@@ -665,7 +740,23 @@ class SimWriteFile:
         return True
 
     def readable(self):
-        return False
+        return "+" in self.mode
+
+    def read(self, n=-1):
+        # update modes ("r+b", "w+b", "a+b"): reads see everything written so far
+        if "+" not in self.mode:
+            raise io.UnsupportedOperation("not readable")
+        self.flush()
+        chunks = []
+        while n is None or n < 0 or n > 0:
+            b = os.read(self._fd, 1 << 20 if (n is None or n < 0) else n)
+            if not b:
+                break
+            chunks.append(b)
+            if n is not None and n > 0:
+                n -= len(b)
+        data = b"".join(chunks)
+        return data.decode(self._encoding) if self._text else data
 
     def seekable(self):
         return True
@@ -1260,7 +1351,7 @@ World.abs_of = _abs_of
 
 def _env_path(world, p):
     if p.startswith("@"):
-        return _expand(world, p)
+        return _abs_of(world, p)  # (never a relative spelling: this code runs in the simulator's own process)
     return world.abspath(p)
 
 
@@ -1333,6 +1424,37 @@ def apply_env(world, op):
             R_rename(src, dst)
             R_utime(dst, ns=(st.st_mtime_ns, st.st_mtime_ns))
             _stamp(world, os.path.dirname(src), os.path.dirname(dst))
+            fired = True
+    elif kind == "link":
+        # a second name (hard link) for an existing regular file, e.g. a `cp -al` / rsync --link-dest style snapshot
+        src = _env_path(world, op["src"])
+        dst = _env_path(world, op["dst"])
+        if os.path.isfile(src) and not os.path.islink(src) and not os.path.lexists(dst):
+            q = os.path.dirname(dst)
+            while q and not os.path.lexists(q):
+                q = os.path.dirname(q)
+            if not os.path.isdir(q):
+                return False
+            R_makedirs(os.path.dirname(dst), exist_ok=True)
+            os.link(src, dst)
+            _stamp(world, os.path.dirname(dst))
+            fired = True
+    elif kind == "link_tree":
+        # `cp -al src dst`: the same directory structure, every regular file a hard link to the original
+        src = _env_path(world, op["src"])
+        dst = _env_path(world, op["dst"])
+        if os.path.isdir(src) and not os.path.lexists(dst) and os.path.isdir(os.path.dirname(dst)) \
+                and not (dst + os.sep).startswith(src + os.sep):
+            for d, subs, files in os.walk(src):
+                subs.sort()
+                target = os.path.join(dst, os.path.relpath(d, src)) if d != src else dst
+                R_makedirs(target, exist_ok=True)
+                for f in sorted(files):
+                    if os.path.isfile(os.path.join(d, f)) and not os.path.islink(os.path.join(d, f)):
+                        os.link(os.path.join(d, f), os.path.join(target, f))
+            for d, subs, files in os.walk(dst, topdown=False):
+                _stamp(world, d)
+            _stamp(world, os.path.dirname(dst))
             fired = True
     elif kind in ("flip", "rewrite", "append", "truncate", "insert", "delbytes"):
         if not os.path.isfile(p):
@@ -1415,6 +1537,7 @@ def clone_world(world, sandbox):
     w.fault_counts = world.fault_counts  # shared counters
     w.sim_us_total = 0
     w._session = None
+    w.tz_env = world.tz_env
     R_makedirs(sandbox, exist_ok=True)
     copy_world_tree(world.base, w.base)
     return w
